@@ -107,10 +107,15 @@ func TestC11_P_Sizes(t *testing.T) {
 		ext := map[cid.Cid]uint64{}
 		fp, nt := "", false
 		// history: a failed or abandoned build earlier in the process must not change what the next build reports
-		switch rapid.IntRange(0, 5).Draw(t, "prelude") {
+		switch rapid.IntRange(0, 6).Draw(t, "prelude") {
+		case 6:
+			// builds refused at open / while writing (also after part of the bytes was accepted) / at commit, any error value
+			must(t, "failed builds", func() { failedBuilds(t) })
+			ev.Count("prelude:failed-builds", 1)
 		case 0:
 			bad := NewStore()
 			bad.FailWriteAt = rapid.IntRange(1, 3).Draw(t, "failWriteAt")
+			bad.PartialWrite = rapid.Bool().Draw(t, "partialWrite")
 			_, _, _ = buildFile(bad, lcgBytes(40, 1, 0), "size-8", 2)
 			ev.Count("prelude:failed-write", 1)
 		case 1:
